@@ -564,9 +564,34 @@ Definition counts_ok (s : spec_counts) (d : dstats) : bool :=
   (d_blocks d =? s_blocks s) && (d_vmin d =? s_vmin s) && (d_vmax d =? s_vmax s) && (d_phsnv d =? s_phsnv s).
 Definition lengths_ok (s : spec_counts) (d : dstats) : bool :=
   (0 <=? d_bmin d) && (d_bmin d <=? d_bmax d) && (d_bmax d <=? d_bsum d) && (d_bsum d <=? s_span s).
+(* the non-overlapping pieces, determined independently of the dictionary the code builds: the phase sets of the
+   heterozygous records (in order of first occurrence), each as the block of its members, handed to the splitting
+   procedure whose output is proved to consist of pairwise non-overlapping sub-ranges (C12_pieces_disjoint) *)
+Definition first_ids (ids : list Z) : list Z :=
+  fold_left (fun acc i => if zmem i acc then acc else acc ++ [i]) ids [].
+Definition spec_blocks (hs : list vrec) : list pblock :=
+  map (fun i => pb_of_vars (map (fun r => mkVar (r_pos r) (r_snv r)) (set_members hs i))) (first_ids (set_ids hs)).
+Definition spec_piece_lens (hs : list vrec) : option (list Z) :=
+  match get_nonoverlapping_blocks (spec_blocks hs) with
+  | NOk ps => Some (map pb_span ps)
+  | _ => None
+  end.
+(* shortest / longest / sum of block lengths are those of the pieces (all 0 when there is none) *)
+Definition pieces_ok (only_snvs : bool) (recs : list vrec) (d : dstats) : bool :=
+  match spec_piece_lens (hets (counted only_snvs recs)) with
+  | Some [] => (d_bmin d =? 0) && (d_bmax d =? 0) && (d_bsum d =? 0)
+  | Some lens => (d_bmin d =? zmin_list 0 lens) && (d_bmax d =? zmax_list 0 lens) && (d_bsum d =? zsum lens)
+  | None => false
+  end.
+
 Definition l1_row (only_snvs : bool) (recs : list vrec) (d : dstats) (bl : list (key * Z * Z * Z)) : bool :=
   let s := spec_of only_snvs recs in
-  identities_ok d bl && counts_ok s d && lengths_ok s d && list_eqb2 spec_blline_eqb bl (s_blocklist s).
+  identities_ok d bl && counts_ok s d && lengths_ok s d && list_eqb2 spec_blline_eqb bl (s_blocklist s) &&
+  pieces_ok only_snvs recs d.
+(* used only to name a failure class: everything but the block-length fields *)
+Definition l1_row_nolen (only_snvs : bool) (recs : list vrec) (d : dstats) (bl : list (key * Z * Z * Z)) : bool :=
+  let s := spec_of only_snvs recs in
+  identities_ok d bl && counts_ok s d && list_eqb2 spec_blline_eqb bl (s_blocklist s).
 
 (* the ALL row: field-wise sum of the per-chromosome rows (min / max over the rows that have blocks) *)
 Definition row_add (a b : dstats) : dstats :=
@@ -616,11 +641,12 @@ Fixpoint gtf_ok (bl : list (Z * Z * Z * Z)) (last_end : option Z) (g : list (Z *
    its chromosome; without --chromosome every chromosome of the file must be reported, in file order;
    with --chromosome only (and, if present in the file, all of) the requested ones. *)
 Definition lines_of {A} (cid : Z) (l : list (Z * A)) : list A := map snd (filter (fun x => fst x =? cid) l).
-Definition l1_run_gen (allchk : list (Z * dstats) -> option dstats -> bool)
+Definition l1_run_gen (rowchk : bool -> list vrec -> dstats -> list (key * Z * Z * Z) -> bool)
+           (allchk : list (Z * dstats) -> option dstats -> bool)
            (only_snvs : bool) (groups : list (Z * list vrec)) (given : list Z) (out : output) : bool :=
   forallb (fun row =>
              let recs := lookup_recs groups (fst row) in
-             l1_row only_snvs recs (snd row) (lines_of (fst row) (o_blocklist out)) &&
+             rowchk only_snvs recs (snd row) (lines_of (fst row) (o_blocklist out)) &&
              gtf_ok (s_blocklist (spec_of only_snvs recs)) None (lines_of (fst row) (o_gtf out)))
           (o_rows out) &&
   allchk (o_rows out) (o_all out) &&
@@ -631,7 +657,7 @@ Definition l1_run_gen (allchk : list (Z * dstats) -> option dstats -> bool)
   end &&
   forallb (fun l => zmem (fst l) (map fst (o_rows out))) (o_blocklist out) &&
   forallb (fun l => zmem (fst l) (map fst (o_rows out))) (o_gtf out).
-Definition l1_run := l1_run_gen all_row_ok.
+Definition l1_run := l1_run_gen l1_row all_row_ok.
 
 (* consequence for the ALL row (proved from l1_run): its sum of block lengths is at most the total covered
    span, i.e. the sum over the reported chromosomes of (max - min position over the members of the phase
@@ -652,7 +678,9 @@ Definition all_row_ok_nolen (rows : list (Z * dstats)) (all : option dstats) : b
   | None => true
   | Some a => dstats_eqb (nolen a) (nolen (row_sum (map snd rows)))
   end.
-Definition l1_run_nolen := l1_run_gen all_row_ok_nolen.
+Definition l1_run_nolen := l1_run_gen l1_row all_row_ok_nolen.
+(* ... and with the block-length fields of the per-chromosome rows left out as well *)
+Definition l1_run_norowlen := l1_run_gen l1_row_nolen all_row_ok_nolen.
 
 (* shape of one correspondence case written by harness/props/C12.py:
    ((only_snvs, indexed), header, groups, given, result of the implementation) *)
